@@ -1048,7 +1048,7 @@ func TestC10Regress(t *testing.T) {
 	}
 	// A 101 answer: the connection speaks another protocol from here on, whichever way the upgrade option is spelled
 	// in the Connection list. It is never put back; the next request of the host gets a connection of its own.
-	for _, form := range []string{"Upgrade", "upgrade", "keep-alive, Upgrade", "Upgrade, keep-alive"} {
+	for _, form := range []string{"Upgrade", "upgrade", "keep-alive, Upgrade", "Upgrade, keep-alive", "keep-alive\r\nConnection: Upgrade"} {
 		var dials int32
 		var sawSecondOnFirst int32
 		dial := func(n int, addr string) (net.Conn, error) {
